@@ -104,6 +104,62 @@ class Shortest:
                                     changed = True
                             break
 
+    def containing(self):
+        """(nt, atom) -> shortest token string of nt that contains the atom (computed on first use)"""
+        if hasattr(self, "_cont"):
+            return self._cont
+        cont = {}
+        changed = True
+        while changed:
+            changed = False
+            for nt, alts in self.g.prods.items():
+                for rhs in alts:
+                    parts = []
+                    ok = True
+                    for s_ in rhs:
+                        if isinstance(s_, str):
+                            if s_ not in self.best:
+                                ok = False
+                                break
+                            parts.append((s_, self.best[s_]))
+                        else:
+                            a = term_atoms(s_, self.names)
+                            parts.append((None, [a[0]] if a is not None else [], a or []))
+                    if not ok:
+                        continue
+                    for i, part in enumerate(parts):
+                        before = [x for q in parts[:i] for x in q[1]]
+                        after = [x for q in parts[i + 1:] for x in q[1]]
+                        if part[0] is None:
+                            options = [(atom, [atom]) for atom in part[2]]
+                        else:
+                            options = [(atom, seq) for (n2, atom), seq in list(cont.items()) if n2 == part[0]]
+                        for atom, seq in options:
+                            cand = before + seq + after
+                            if (nt, atom) not in cont or len(cand) < len(cont[(nt, atom)]):
+                                cont[(nt, atom)] = cand
+                                changed = True
+        self._cont = cont
+        return cont
+
+    def variants(self, letters, limit=600):
+        """concrete atom strings for a symbol word: the shortest one first, then, for every nonterminal position and every atom that the
+        nonterminal can contain, the shortest string in which that occurrence contains the atom"""
+        out = [self.word(letters)]
+        cont = self.containing()
+        for i, l in enumerate(letters):
+            if not isinstance(l, tuple) or l[1] == "NOBRACE":
+                continue
+            for (nt, atom), seq in sorted(cont.items()):
+                if nt != l[1]:
+                    continue
+                cand = self.word(letters[:i]) + seq + self.word(letters[i + 1:])
+                if cand not in out:
+                    out.append(cand)
+                    if len(out) >= limit:
+                        return out
+        return out
+
     def word(self, letters, want_first=None):
         """letters: atoms and ('N', name) symbols -> list of atoms; the first nonterminal expansion tries to start with want_first"""
         out = []
